@@ -97,6 +97,8 @@ structure Cfg where
   dotAll : Bool
   unescRef : Bool
   firstGt : Bool
+  /-- not a source version but an input: the caller's node resolver finds nothing (`|_, _| None`) -/
+  noResolver : Bool
 
 /-- what `.*` consumes: the rest of the text, or (pinned) the rest of the current line -/
 def takeLine (cfg : Cfg) (cs : List Char) : List Char := if cfg.dotAll then cs else (spanP (· ≠ '\n') cs).1
@@ -248,6 +250,14 @@ def parseElem (cfg : Cfg) (tok : List Char) : Option Elem :=
       | .dot => some ⟨⟨0, .numeric aggregates⟩, false, true, tn⟩
       | .angle b =>
         let name := if cfg.unescRef then unescapeBN b.name else b.name
+        if cfg.noResolver then
+          -- the namespace text is still validated before the resolver is asked
+          match b.nsidx with
+          | none => none
+          | some d => if d = ['0'] then none else match parseUnsigned 65535 d with
+            | some _ => none
+            | none => none
+        else
         match b.nsidx with
         | none => some ⟨resolveNode 0 name, b.inverse, b.subtypes, tn⟩
         | some d =>
@@ -302,10 +312,10 @@ def parsePathWith (cfg : Cfg) (path : List Char) : Option (List Elem) :=
   finishLoop cfg (tokLoop cfg ⟨[], false, []⟩ path)
 
 /-- the current source (after the four `fix:` commits) -/
-def current : Cfg := ⟨true, true, true, true⟩
+def current : Cfg := ⟨true, true, true, true, false⟩
 
 /-- the pinned source -/
-def pinned : Cfg := ⟨false, false, false, false⟩
+def pinned : Cfg := ⟨false, false, false, false, false⟩
 
 def parsePath := parsePathWith current
 
